@@ -150,6 +150,7 @@ Section Syntax.
   Theorem lint_on_rendered : forall (w : world) (file : bytes) (f : Syntax.file) (silent : bool),
     wf_file NM f = true -> short_lines f -> readable (render f) ->
     file <> [] ->
+    file <> dev_null ->
     lookup file (w_fs w) = Some (FFile (render f)) ->
     lookup file (w_read_fault w) = None ->
     w_sink w = None ->
@@ -159,8 +160,8 @@ Section Syntax.
                            then b "No errors found" ++ [c_lf] else []);
          out_status := Ok |}.
   Proof.
-    intros w file f silent Hwf Hs Hr Hne Hfs Hrf Hsink.
-    rewrite (lint_reports_all NM w file (render f) silent Hne Hfs Hrf Hsink Hr).
+    intros w file f silent Hwf Hs Hr Hne Hnd Hfs Hrf Hsink.
+    rewrite (lint_reports_all NM w file (render f) silent Hne Hnd Hfs Hrf Hsink Hr).
     rewrite (errors_of_rendered f Hwf Hs). reflexivity.
   Qed.
 
